@@ -13,6 +13,9 @@ def make_scenarios(rng, tier):
         for rep in range(reps):
             scs.append(overlap_scenario(sid, mn, mx, rng, faulty=rep % 3 == 2, rounds=2 if tier == "quick" else 3))
             sid += 1
+        for rep in range(3 if tier == "quick" else 50):
+            scs.append(random_walk_scenario(sid, mn, mx, rng, steps=10 if tier == "quick" else 24, faulty=rep % 3 == 2))
+            sid += 1
     # every wrapper method at least once per run, two at a time on a (1,2) pool
     for i in range(0, len(METHODS), 2):
         sc = {"id": sid, "min": 1, "max": 2, "model": 1 + (i // 2) % 4, "rules": rules_v(1), "steps": []}
@@ -27,7 +30,7 @@ def make_scenarios(rng, tier):
     return scs
 
 
-RULE = ("scenarios as C17 on pools (1,2),(2,3),(2,5) plus every one of the 24 wrapper methods paired on a (1,2) pool: max requests held at a gate inside their first rule while snapshots read every instance's data context by reflection; "
+RULE = ("scenarios as C17 (overlap rounds and random walks over pool states) on pools (1,2),(2,3),(2,5) plus every one of the 24 wrapper methods paired on a (1,2) pool: max requests held at a gate inside their first rule while snapshots read every instance's data context by reflection; "
         "every request carries a unique id in its own injected object and under a unique key; rules echo the id into the returned values and into the request's object; "
         "checked inside Coq: the instances holding request keys are exactly the executing requests, one each; nothing of a returned request is left in any instance; returned maps contain only the caller's id and are unchanged when read again at the end; "
         "distinct non-trivial = snapshots taken while at least two requests were simultaneously inside a rule")
